@@ -299,6 +299,63 @@ func releaseHolderTrial(r *vh.Run, i int) {
 	}
 }
 
+// failedCompletionTrial: the completion of an upload fails inside the store (the place of the blob is taken by a
+// directory, or the session's file has disappeared under it).  Whatever that request is answered: the repository
+// stays usable - a listing, a new push and Close return.  Stable-stall rule.
+func failedCompletionTrial(r *vh.Run, i int) {
+	root := r.TempDir("c12f")
+	defer vh.RemoveAll(root)
+	how := []string{"blob-path-is-a-directory", "session-file-removed"}[i%2]
+	srv := vh.New(vh.Conf(vh.Dir, root, vh.Neutral))
+	wit := map[string]any{"trial": i, "store": "dir", "completion_fails_because": how}
+	b := []byte(fmt.Sprintf("content whose completion fails %d", i))
+	d := vh.DigestOf("sha256", b)
+	first := []byte(fmt.Sprintf("first %d", i))
+	vh.Do(srv, vh.Req{Method: "POST", URL: "/v2/f/blobs/uploads/?digest=" + vh.DigestOf("sha256", first), Body: first})
+	ns := vh.Do(srv, vh.Req{Method: "POST", URL: "/v2/f/blobs/uploads/"})
+	loc := ns.H.Get("Location")
+	if ns.Status != 202 || loc == "" {
+		r.Inconclusive("failedCompletionTrial: no session")
+		_ = srv.Close()
+		return
+	}
+	ps := vh.Do(srv, vh.Req{Method: "PATCH", URL: loc, Body: b})
+	if l := ps.H.Get("Location"); l != "" {
+		loc = l
+	}
+	switch how {
+	case "blob-path-is-a-directory":
+		_ = os.MkdirAll(root+"/f/blobs/sha256/"+d[7:]+"/x", 0o755)
+	default:
+		ents, _ := os.ReadDir(root + "/f/_uploads")
+		for _, e := range ents {
+			_ = os.Remove(root + "/f/_uploads/" + e.Name())
+		}
+	}
+	sep := "&"
+	if !strings.Contains(loc, "?") {
+		sep = "?"
+	}
+	put := vh.Do(srv, vh.Req{Method: "PUT", URL: loc + sep + "digest=" + d})
+	wit["put_status"] = put.Status
+	res := vh.Watch(func() {
+		vh.Do(srv, vh.Req{Method: "GET", URL: "/v2/f/tags/list"})
+		nb := []byte(fmt.Sprintf("next %d", i))
+		vh.Do(srv, vh.Req{Method: "POST", URL: "/v2/f/blobs/uploads/?digest=" + vh.DigestOf("sha256", nb), Body: nb})
+		_ = srv.Close()
+	}, 2*time.Second, 40*time.Second)
+	r.Count("failed_completion_trials", 1)
+	r.Distinct("configs", "failed-completion/"+how)
+	if res.Stalled {
+		wit["blocked_goroutines"] = res.Desc
+		r.Violation("repository-blocked-after-failed-completion", fmt.Sprintf("directory store: after an upload completion that failed inside the store (%s, answered %d) a listing, a new push or Close of the same repository never returns: every goroutine inside olareg is blocked", how, put.Status), wit)
+		return
+	}
+	if !res.Done {
+		r.Inconclusive("requests after a failed completion still running after 40 s without a stable stall")
+	}
+}
+
 // precancelTrial: requests that arrive with a context that is already cancelled (a client that has gone away before
 // the handler runs) - and requests cancelled at a random moment - must leave nothing behind: an ordinary request
 // afterwards returns and Close returns.  Decided by the stable-stall criterion, never by a deadline.
@@ -679,6 +736,14 @@ func main() {
 				legacyOpenTrial(r, i-nc-np-nt)
 			}
 		})
+	}
+	if !st {
+		nfc := r.N(4, 40)
+		before := r.Violations()
+		for i := 0; i < nfc && r.Violations() == before; i++ {
+			failedCompletionTrial(r, i)
+		}
+		st = r.Violations() > before
 	}
 	if !st {
 		nh := r.N(2, 30)
